@@ -797,6 +797,12 @@ impl<E: FieldElement> OpFlags<E> {
         self.degree7_op_flags[get_op_index(Operation::AdvPop.op_code())]
     }
 
+    /// Operation Flag of CLK operation.
+    #[inline(always)]
+    pub fn clk(&self) -> E {
+        self.degree7_op_flags[get_op_index(Operation::Clk.op_code())]
+    }
+
     /// Operation Flag of SDEPTH operation.
     #[inline(always)]
     pub fn sdepth(&self) -> E {
